@@ -234,7 +234,8 @@ func errText(e error) string {
 // checkAux compares the auxiliary store with the model for every key of the key set.
 func (sr *sessRunner) checkAux(m *runnerModel, r *formula.Runner, when string) {
 	for _, k := range sessKeys {
-		got := r.Get(k)
+		var got interface{}
+		sr.api("Get("+k+")", func() { got = r.Get(k) })
 		want, ok := m.aux[k]
 		if !ok {
 			want = mNull()
@@ -502,10 +503,21 @@ func (sr *sessRunner) randomValue(s *Stream) MV {
 	}
 }
 
+// api runs one call of the runner's API; the statement promises plain map /
+// key-value-store behaviour, so a panic out of it is a violation, not a crash.
+func (sr *sessRunner) api(what string, f func()) {
+	defer func() {
+		if p := recover(); p != nil {
+			sr.violation("runner API behaves like a plain map plus a key-value store", "api-panic/"+strings.SplitN(what, "(", 2)[0], what+" panicked: "+stripAddrs(panicText(p)))
+		}
+	}()
+	f()
+}
+
 func (sr *sessRunner) opSetThis(s *Stream) {
 	sr.ops++
 	if s.Intn(8) == 0 {
-		sr.r.SetThis(nil)
+		sr.api("SetThis(nil)", func() { sr.r.SetThis(nil) })
 		sr.cur = nil
 		sr.m.hasThis, sr.m.this = false, nil
 		sr.m.stubs = map[string]bool{}
@@ -539,7 +551,7 @@ func (sr *sessRunner) opSetThis(s *Stream) {
 	sr.flavour = s.Intn(4)
 	sr.m.hasThis, sr.m.this, sr.m.stubs = true, nm.this, nm.stubs
 	sr.cur = sr.goMap(sr.m)
-	sr.r.SetThis(sr.cur)
+	sr.api("SetThis(map)", func() { sr.r.SetThis(sr.cur) })
 	sr.hist = append(sr.hist, "SETTHIS("+mMap(nm.this).String()+")")
 }
 
@@ -552,32 +564,34 @@ func (sr *sessRunner) opSetVal(s *Stream) {
 		key = sessNames[s.Intn(len(sessNames)-2)] // x y s flag
 	}
 	v := sr.randomValue(s)
-	sr.r.SetThisValue(key, v.toGo(s.Intn(4)))
+	gv := v.toGo(s.Intn(4))
+	sr.hist = append(sr.hist, "SETVAL("+key+","+v.String()+")")
+	sr.api("SetThisValue("+key+")", func() { sr.r.SetThisValue(key, gv) })
 	if !sr.m.hasThis {
 		sr.rc.probe("set_entry_on_runner_without_map")
 	}
 	sr.m.setEntry(key, v)
-	sr.hist = append(sr.hist, "SETVAL("+key+","+v.String()+")")
 }
 
 func (sr *sessRunner) opStore(s *Stream) {
 	sr.ops++
 	k := sessKeys[s.Intn(len(sessKeys))]
 	v := sr.randomValue(s)
-	sr.r.Set(k, v.toGo(3))
-	sr.m.aux[k] = v
 	sr.hist = append(sr.hist, "STORE("+k+","+v.String()+")")
+	sr.api("Set("+k+")", func() { sr.r.Set(k, v.toGo(3)) })
+	sr.m.aux[k] = v
 }
 
 func (sr *sessRunner) opFetch(s *Stream) {
 	sr.ops++
 	k := sessKeys[s.Intn(len(sessKeys))]
-	got := sr.r.Get(k)
+	sr.hist = append(sr.hist, "FETCH("+k+")")
+	var got interface{}
+	sr.api("Get("+k+")", func() { got = sr.r.Get(k) })
 	want, ok := sr.m.aux[k]
 	if !ok {
 		want = mNull()
 	}
-	sr.hist = append(sr.hist, "FETCH("+k+")")
 	if !matches(want, got) {
 		sr.violation("fetch equals model", "fetch-differs", "Get("+k+") = "+implString(got)+", model "+want.String())
 	}
@@ -710,11 +724,12 @@ func (sr *sessRunner) opEval(s *Stream, maxNodes, maxDepth int, faults bool, enu
 			sh := &sessRunner{id: sr.id, r: formula.NewRunner(), m: sr.m.clone(), st: sr.st, fl: sr.fl, flavour: sr.flavour, prop: sr.prop, rc: sr.rc, hist: append(append([]string{}, sr.hist...), "CLONE")}
 			sh.ctx = context.WithValue(context.Background(), "formulaRunner", sh.r)
 			for key, v := range sh.m.aux {
-				sh.r.Set(key, v.toGo(3))
+				key, v := key, v
+				sh.api("Set("+key+")", func() { sh.r.Set(key, v.toGo(3)) })
 			}
 			if sh.m.hasThis {
 				sh.cur = sh.goMap(sh.m)
-				sh.r.SetThis(sh.cur)
+				sh.api("SetThis(map)", func() { sh.r.SetThis(sh.cur) })
 			}
 			sh.evalChecked(n, text, k, true)
 			sr.shadow++
